@@ -300,3 +300,13 @@ Example bad_answers_concrete :
   /\ same_hops tO3 (st (handle tO3 11 extended2 (orc 105 503 [] 0 0)))
   /\ same_hops tO3 (st (handle tO3 11 created1 (orc 105 503 [] 0 0))).
 Proof. exact toy_bad_answers. Qed.
+
+(* a created arriving while an EXTEND is pending, carrying the pending identifier and hop 1's original key
+   material (made for hop 1's ephemeral secret 100, not for the pending secret 102): whatever the message
+   type, it is checked against the unverified hop and rejected; hop 1 is untouched (premise of
+   stale_answer_rejected with x_old = 100, x = 102) *)
+Example relabelled_earlier_answer_rejected :
+  handle tO2 99 relabelled_created (orc 0 0 [] 0 0) = (tO2, [], Some CryptoError)
+  /\ handle tO2 11 relabelled_extended (orc 0 0 [] 0 0) = (tO2, [], Some CryptoError)
+  /\ hops_of tO2 7 = Some [mkHop (C := Toy) (mkPeer 1 11) (Some (TKdf (TDH 100 101) (TDH 1 100))) (Some 100)].
+Proof. vm_compute. auto. Qed.
